@@ -889,4 +889,138 @@ theorem step_tick_holds (k : Nat) (p cid : Str) (s : Server) (kind : String) (t 
         · exact h.of_surv (tickWills_sv k s t) (tickWills_quiet s t).clients
         · exact h
 
+/-! ### resumption and take-over: `admitA` (`inheritClientSession` + `Clients.Add`) -/
+
+theorem Rec.pos {c : Client} {k : Nat} {p : Str} (r : Rec c k p) : c.inflight.length > 0 := by
+  obtain ⟨m, hm, _⟩ := r
+  unfold flGet at hm
+  cases hl : c.inflight with
+  | nil => rw [hl] at hm; cases hm
+  | cons x xs => simp
+
+theorem Rec.of_modObj {s : Server} {n k : Nat} {p : Str} (f : Client → Client)
+    (hf : (f (getObj s n)).inflight = (getObj s n).inflight) (r : Rec (getObj s n) k p) :
+    Rec (getObj (modObj s n f) n) k p := by
+  unfold modObj
+  rcases getObj_setObj_self_cases s n (f (getObj s n)) with e | e <;> rw [e]
+  · exact r.of_infl hf
+  · exact r
+
+theorem admitA_walk (k : Nat) (s : Server) (n : Nat) (k' : Connect) :
+    (admitA s n k').1.clients = assocSet s.clients k'.id n ∧
+    (∀ i, i ≠ n → assocGet s.clients k'.id ≠ some i → RK k (getObj s i) (getObj (admitA s n k').1 i)) ∧
+    (∀ e, assocGet s.clients k'.id = some e → n ≠ e → n < s.objs.length → k'.clean = false →
+        ((getObj s e).clean && (getObj s e).ver < 5) = false →
+        ∀ p, Rec (getObj s e) k p → Rec (getObj (admitA s n k').1 n) k p) := by
+  unfold admitA
+  extract_lets +onlyGivenNames src s0 exLive
+  split
+  rename_i s' o1 present heq
+  have key : s'.clients = s.clients ∧
+      (∀ i, i ≠ n → assocGet s.clients k'.id ≠ some i → RK k (getObj s i) (getObj s' i)) ∧
+      (∀ e, assocGet s.clients k'.id = some e → n ≠ e → n < s.objs.length → k'.clean = false →
+        ((getObj s e).clean && (getObj s e).ver < 5) = false →
+        ∀ p, Rec (getObj s e) k p → Rec (getObj s' n) k p) := by
+    have hs0 : Surv k s s0 := (Surv.refl k s).upd rfl
+    split at heq
+    · rename_i e he
+      have he : assocGet s.clients k'.id = some e := he
+      extract_lets +onlyGivenNames ex at heq
+      split at heq
+      rename_i s1 o hd
+      have hs1 : Surv k s s1 := by
+        have := disconnectClient_sv k s0 e 0x8E
+        rw [hd] at this
+        exact hs0.trans this
+      have hc1 : s1.clients = s.clients := by
+        have := (disconnectClient_quiet s0 e 0x8E).clients
+        rw [hd] at this
+        exact this
+      have hl1 : s1.objs.length = s.objs.length := by
+        have := (disconnectClient_frame s0 e 0x8E).len
+        rw [hd] at this
+        exact this
+      split at heq
+      · rename_i hclean
+        extract_lets +onlyGivenNames s2 s3 at heq
+        cases heq
+        refine ⟨?_, ?_, ?_⟩
+        · show (unsubscribeClient s1 e).clients = s.clients
+          rw [unsubscribeClient_clients_sv]; exact hc1
+        · intro i _ hie
+          have hie' : i ≠ e := fun x => hie (x ▸ he)
+          show RK k (getObj s i) (getObj (modObj s3 e _) i)
+          unfold modObj
+          rw [getObj_setObj_ne s3 e i _ hie']
+          exact ((hs1 i).trans (unsubscribeClient_sv k s1 e i)).trans (clearInflights_sv k s2 e i (Or.inl hie'))
+        · intro e' he' _ _ hcl h3
+          rw [he] at he'; cases he'
+          have : (k'.clean || (ex.clean && decide (ex.ver < 5))) = true := hclean
+          have hex : ex = getObj s e := rfl
+          rw [hcl, hex, h3] at this
+          cases this
+      · extract_lets +onlyGivenNames s2 ex2 rmx s2i src2 s3 s4 s5 s6 at heq
+        rw [← (Prod.mk.inj heq).1]
+        have hl2 : s2.objs.length = s.objs.length := (setObj_length s1 e _).trans hl1
+        have hc3 : s3.clients = s.clients := by
+          show (if ex2.inflight.length > 0 then _ else s2).clients = s.clients
+          split
+          · exact hc1
+          · exact hc1
+        have hc4 : s4.clients = s.clients := by
+          refine foldl_inv (fun (x : Server) => x.clients = s.clients) _ _ _ hc3 ?_
+          intro b fs hb
+          exact hb
+        refine ⟨?_, ?_, ?_⟩
+        · show (unsubscribeClient s4 e).clients = s.clients
+          rw [unsubscribeClient_clients_sv]; exact hc4
+        · intro i hin hie
+          have hie' : i ≠ e := fun x => hie (x ▸ he)
+          have k2 : RK k (getObj s i) (getObj s2 i) := by
+            show RK k (getObj s i) (getObj (modObj s1 e _) i)
+            unfold modObj
+            rw [getObj_setObj_ne s1 e i _ hie']
+            exact hs1 i
+          have k3 : RK k (getObj s i) (getObj s3 i) := by
+            show RK k (getObj s i) (getObj (if ex2.inflight.length > 0 then _ else s2) i)
+            split
+            · show RK k (getObj s i) (getObj s2i i)
+              rw [show getObj s2i i = getObj s2 i from getObj_setObj_ne s2 n i _ hin]
+              exact k2
+            · exact k2
+          have k4 : RK k (getObj s i) (getObj s4 i) := by
+            refine foldl_inv (fun (x : Server) => RK k (getObj s i) (getObj x i)) _ _ _ k3 ?_
+            intro b fs hb
+            extract_lets +onlyGivenNames rr src3 b1
+            show RK k (getObj s i) (getObj (modObj b1 n _) i)
+            unfold modObj
+            rw [getObj_setObj_ne b1 n i _ hin]
+            exact hb
+          exact (k4.trans (unsubscribeClient_sv k s4 e i)).trans (clearInflights_sv k s5 e i (Or.inl hie'))
+        · intro e' he' hne hn _ _ p r
+          rw [he] at he'; cases he'
+          have r1 : Rec (getObj s1 e) k p := (hs1 e).keep p r
+          have r2 : Rec ex2 k p := Rec.of_modObj _ rfl r1
+          have hpos : ex2.inflight.length > 0 := r2.pos
+          have r3 : Rec (getObj s3 n) k p := by
+            show Rec (getObj (if ex2.inflight.length > 0 then _ else s2) n) k p
+            rw [if_pos hpos]
+            show Rec (getObj s2i n) k p
+            rw [show getObj s2i n = _ from getObj_setObj_eq s2 n _ (by rw [hl2]; exact hn)]
+            exact r2.of_infl rfl
+          have r4 : Rec (getObj s4 n) k p := by
+            refine foldl_inv (fun (x : Server) => Rec (getObj x n) k p) _ _ _ r3 ?_
+            intro b fs hb
+            extract_lets +onlyGivenNames rr src3 b1
+            exact Rec.of_modObj (s := b1) _ rfl hb
+          exact (clearInflights_sv k s5 e n (Or.inl hne)).keep p ((unsubscribeClient_sv k s4 e n).keep p r4)
+    · rename_i hnone
+      have hnone : assocGet s.clients k'.id = none := hnone
+      cases heq
+      exact ⟨rfl, fun i _ _ => hs0 i, fun e he => by rw [hnone] at he; cases he⟩
+  obtain ⟨h1, h2, h3⟩ := key
+  refine ⟨?_, h2, h3⟩
+  show assocSet s'.clients k'.id n = _
+  rw [h1]
+
 end Mochi.Broker
